@@ -12,6 +12,10 @@ def matchStep (fs : List String) : String :=
     match decTopo t with
     | some t => String.intercalate "\t" [encStr (topoHashInput t), encStr (topoHashOf t), encStr (fuzzyHash t)]
     | none => "bad-op"
+  | ["tfp", t] =>
+    match decTopo t with
+    | some t => encStr (topoFingerprint t)
+    | none => "bad-op"
   | ["index", t] =>
     match decTopo t with
     | some t => encSig (indexFunction (topoHashOf t) t [] [] [])
